@@ -17,11 +17,21 @@ CHECKS = {
             "Trusted: TLC, the Json module, the harness' mapping of (flag, polarity) to the 16 Go methods, canonical representative "
             "sequences reaching each abstract state.", "4/C18"),
 }
+CHECKS["C16"] = ("model_checking",
+            "TLC complete enumeration (BitRange.tla) of all 528 ranges and 65 536 offset/width pairs; executed on the real helpers; TLC trace judge",
+            "The quantifier of the property is finite and is enumerated completely by TLC: every range and every (offset,width) pair "
+            "is executed on NXRange (both constructions), the ofs_nbits encode/decode helpers (decoding the specification's own word, so "
+            "encoder and decoder are judged independently), NewRegMatchField and the conntrack zone range, and judged by TLC against "
+            "BitRange.tla; TLC also evaluates the inverse and mask facts of the specification on the whole domain.",
+            "Trusted: TLC, Json module, harness field mapping; the unexported helpers are reached through the guarded hook "
+            "openflow13/verif_hooks.go (build tag verif).", "4/C16")
 
 NOT_YET = {
 }
 
 NOT_APPLICABLE = []
+
+HOOK_COMMITS = ["b94cb78"]
 
 
 def main():
@@ -51,7 +61,7 @@ def main():
         setup_cmd="bin/setup",
         hooks=dict(guard="verif", enable="go build -tags verif (the harness module replaces github.com/contiv/libOpenflow with /repo)",
                    baseline_off_cmd="cd /repo && GOFLAGS=-mod=mod go test -vet=off -count=1 ./openflow13/... ./protocol/...",
-                   source_commits=[], add_only=True),
+                   source_commits=HOOK_COMMITS, add_only=True),
         engines=[dict(name="tlc+go-harness", path="/verif/bin/check",
                       serves_properties=[c["property_id"] for c in checks],
                       kind_free_text="TLA+ specifications (spec/*.tla) checked and used as generator and trace judge by TLC; "
